@@ -581,8 +581,13 @@ def _unit_checks(ctx, label, unit, raw):
 
 
 def _regular(ctx, vec):
-    """precondition of normalisation: the vector is not the zero vector"""
-    ctx.assume(ctx.ne(_dot(vec, vec), 0))
+    """precondition of normalisation: the vector is not the zero vector.  Stated as |vec|^2 > 0 (the same thing for a
+    sum of squares) in division-free form, which is also what settles the domain test of math.sqrt on this path."""
+    ss = _dot(vec, vec)
+    if ctx.mode == 'sym':
+        ctx.assume(ctx.sign_free_lt(0, ss))
+    else:
+        ctx.assume(ss > 0)
 
 
 def _tan_curve_shapes(tier):
